@@ -1028,7 +1028,7 @@ func (c *specCtx) call(n *ast.CallExpr) (sv, error) {
 			return sv{}, err
 		}
 		return c.mk(types.Typ[types.UnsafePointer], "(i-tag "+v.S+")"), nil
-	case "sent", "sentval", "recvd":
+	case "sent", "sentval", "recvd", "closed":
 		// ghost record of channel sends performed by the function under verification
 		v, err := c.eval(args[0])
 		if err != nil {
@@ -1040,6 +1040,9 @@ func (c *specCtx) call(n *ast.CallExpr) (sv, error) {
 		}
 		if id.Name == "sent" {
 			return c.mk(tInt, fmt.Sprintf("(select %s %s)", e.sendCount(c.st), v.S)), nil
+		}
+		if id.Name == "closed" {
+			return c.mk(tBool, e.lt(e.sc.idxLit(0), fmt.Sprintf("(select %s %s)", e.closeCount(c.st), v.S))), nil
 		}
 		if id.Name == "recvd" {
 			return c.mk(tInt, fmt.Sprintf("(select %s %s)", e.recvCount(c.st), v.S)), nil
